@@ -11,7 +11,8 @@ import common
 from common import Report, Sandbox, run_cicada, crashed
 
 _sb = None
-NAMES = ["ll", "g.s", "a-b", "X_1", "9z", "vp_b", "vp_c", "la", "k", "A.b-c_d"]
+# (pairs that differ only in letter case, or only in the kind of separator, are different names)
+NAMES = ["ll", "g.s", "a-b", "X_1", "9z", "vp_b", "vp_c", "la", "k", "A.b-c_d", "LL", "Ll", "a.b", "a_b", "K", "x_1", ".."]      # (not `-` or `1`: with a numeric argument the line would be arithmetic, C19)
 VALUES = {
     "plain": ["vp_argv", "vp_a"],
     "options": ["vp_argv -l", "vp_a --color=auto -x"],
